@@ -62,6 +62,17 @@ def dform_upto(s, N, b, k):
     return rsum(lambda i: (sigma_seq(s, N) - blob_sigma(s, i, b)) * (sigma_seq(s, N) - blob_sigma(s, i, b)) / toreal(nb), 0, k)
 
 
+def dform_term(s, N, b, i):
+    """the summand of blob i"""
+    return (sigma_seq(s, N) - blob_sigma(s, i, b)) * (sigma_seq(s, N) - blob_sigma(s, i, b)) / toreal(N - b + 1)
+
+
+def dform_rng(s, N, b, lo, hi):
+    """the same summand as dform_upto over the blobs lo..hi-1 (dform_upto(s, N, b, k) is dform_rng(s, N, b, 0, k))"""
+    nb = N - b + 1
+    return rsum(lambda i: (sigma_seq(s, N) - blob_sigma(s, i, b)) * (sigma_seq(s, N) - blob_sigma(s, i, b)) / toreal(nb), lo, hi)
+
+
 @memo
 def dform(s, N, b):
     """mean squared deviation of the blob sigmas (blob size b) from the sequence sigma; 0 if b > N"""
@@ -391,7 +402,7 @@ def upper_seq(s):
     return mkseq(lambda j: upper_char(s[j]), length(s), 'char')
 
 
-SPEC.update(dict(is_space=is_space, n_aa=n_aa, filtered_ok=filtered_ok, upper_seq=upper_seq))
+SPEC.update(dict(dform_rng=dform_rng, dform_term=dform_term, is_space=is_space, n_aa=n_aa, filtered_ok=filtered_ok, upper_seq=upper_seq))
 
 DEFAULT_PALETTE = {'A': 'black', 'C': 'black', 'D': 'red', 'E': 'red', 'F': 'orange', 'G': 'green', 'H': 'green', 'I': 'black',
                    'K': 'blue', 'L': 'black', 'M': 'black', 'N': 'green', 'P': 'fuchsia', 'Q': 'green', 'R': 'blue', 'S': 'green',
@@ -626,11 +637,22 @@ def n_sym(s, ch, lo, hi):
     return cnt(lambda j: s[j] == ch, lo, hi)
 
 
+def same_letters(p, s, N):
+    """p uses every letter exactly as often as s does.  Symbolically this is stated for ONE letter, the unconstrained constant LETTER
+    (nothing is ever assumed about it, so what is proved holds for every letter); natively all letters are compared"""
+    if HAVE_Z3:
+        from pyvc.values import is_symbolic
+        if is_symbolic(p) or is_symbolic(s) or is_symbolic(N):
+            return cnt(lambda x: p[x] == LETTER, 0, N) == cnt(lambda x: s[x] == LETTER, 0, N)
+    return sorted(p[:N]) == sorted(s[:N])
+
+
 def attained(p, s, N, d):
-    """p is a candidate answer for "a sequence whose delta equals d": right length, residues only, same charge-class counts as s, delta == d"""
+    """p is a candidate answer for "a sequence made of exactly the residues of s whose delta equals d": right length, residues only,
+    every letter as often as in s (hence the same charge-class counts), delta == d"""
     n = length(p)
     return And(n == N, forall(lambda j: is_aa(p[j]), 0, n), npos(p, 0, n) == npos(s, 0, N), nneg(p, 0, n) == nneg(s, 0, N),
-               delta_spec(p, n) == d)
+               same_letters(p, s, N), delta_spec(p, n) == d)
 
 
 def perm_ok(o, flag):
@@ -645,7 +667,12 @@ def perm_ok(o, flag):
 
 
 from pyvc.speclib import is_none, the
-SPEC.update(dict(n_sym=n_sym, attained=attained, perm_ok=perm_ok))
+LETTER = None
+if HAVE_Z3:
+    import z3 as _z3
+    from pyvc.values import SChar as _SChar
+    LETTER = _SChar(_z3.Int('LETTER'))
+SPEC.update(dict(n_sym=n_sym, attained=attained, perm_ok=perm_ok, same_letters=same_letters, LETTER=LETTER))
 
 
 def annotation_ok(text, region):
